@@ -40,7 +40,7 @@ class Exploration:
 
 
 def explore(fn, make_args, cur_n, budget=600, time_limit=120.0, long_bound=LONG_BOUND, base=None, kwargs=None,
-            interp_cls=Interp, force_primary=None, setup=None, on_path=None, on_restart=None):
+            interp_cls=Interp, force_primary=None, setup=None, on_path=None, on_restart=None, prefer=True):
     """all paths of fn(*make_args(ctx), **kwargs).  fn: Func.  make_args(ctx) -> list of argument values.
     base: a Ctx to clone for every path (nested exploration under an existing path condition)."""
     ex = Exploration()
@@ -62,6 +62,7 @@ def explore(fn, make_args, cur_n, budget=600, time_limit=120.0, long_bound=LONG_
         ctx.cur_n = cur_n
         ctx.long_bound = long_bound
         ctx.force_primary = force_primary
+        ctx.prefer = prefer
         it = interp_cls(ctx)
         if setup:
             setup(it)
@@ -101,7 +102,7 @@ def explore(fn, make_args, cur_n, budget=600, time_limit=120.0, long_bound=LONG_
                     break
                 on_restart()          # the paths reported so far are explored again under the refined input: the consumer resets its counters
             ex2 = explore(fn, make_args, cur_n, budget, max(1.0, time_limit - (time.time() - t0)), long_bound, base, kwargs,
-                          interp_cls, r.primary if force_primary is None else force_primary.meet(r.primary), setup, on_path, on_restart)
+                          interp_cls, r.primary if force_primary is None else force_primary.meet(r.primary), setup, on_path, on_restart, prefer)
             ex2.restarts += 1 + ex.restarts
             ex2.secs = time.time() - t0
             return ex2
